@@ -367,24 +367,90 @@ Definition dec_op (l : list Z) : option (Z * op * list Z * list Z) :=   (* t, op
   | _ => None
   end.
 
-Fixpoint dec_events (n : Z) (l : list Z) (fuel : nat) : option (list ev) :=
+Fixpoint dec_events (n : Z) (l : list Z) (fuel : nat) : option (list ev * list Z) :=
   match fuel with
   | O => None
   | S f =>
       match l with
-      | [] => Some []
+      | [] => Some ([], [])
+      | 19 :: _ => Some ([], l)          (* a trailing batch of concurrent requests *)
       | _ =>
           match dec_op l with
           | Some (t, o, obs, r) =>
               match dec_snap n r with
               | Some (sn, r') =>
                   match dec_events n r' f with
-                  | Some es => Some (mkEv t o obs sn :: es)
+                  | Some (es, rest) => Some (mkEv t o obs sn :: es, rest)
                   | None => None end
               | None => None end
           | None => None end
       end
   end.
+
+(* ---- a batch of CONCURRENT requests, judged at quiescence only ----------------------------------
+   wire:  19 t k bm  (12 p a  cs vsig vrelay vpeer | 13 src sa dst  cs cid)*k  SNAPSHOT
+   k requests launched together (ACL allows, every stop handler in mode bm, no injection); cs = the
+   status the client received (0 none).  Always the last event of a case.  The model is not
+   consulted: the interleaving is the scheduler's. *)
+Record breq := mkBr { b_kind : Z; b_p : Z; b_a : Z; b_dst : Z; b_cs : Z; b_x1 : Z; b_x2 : Z; b_x3 : Z }.
+
+Fixpoint dec_breqs (k : nat) (l : list Z) : option (list breq * list Z) :=
+  match k with
+  | O => Some ([], l)
+  | S k' =>
+      match l with
+      | 12 :: p :: a :: cs :: v1 :: v2 :: v3 :: r =>
+          match dec_breqs k' r with Some (x, r') => Some (mkBr 12 p a 0 cs v1 v2 v3 :: x, r') | None => None end
+      | 13 :: src :: sa :: dst :: cs :: cid :: r =>
+          match dec_breqs k' r with Some (x, r') => Some (mkBr 13 src sa dst cs cid 0 0 :: x, r') | None => None end
+      | _ => None
+      end
+  end.
+
+Definition dec_batch (n : Z) (l : list Z) : option (option (Z * list breq * snap)) :=
+  match l with
+  | [] => Some None
+  | 19 :: t :: k :: bm :: r =>
+      if (k <? 0) || (k >? 64) then None else
+      match dec_breqs (Z.to_nat k) r with
+      | Some (rq, r1) =>
+          match dec_snap n r1 with
+          | Some (sn, []) => Some (Some (t, rq, sn))
+          | _ => None end
+      | None => None end
+  | _ => None
+  end.
+
+Definition b_granted (r : breq) : bool := (b_kind r =? 12) && (b_cs r =? ST_OK).
+Definition b_circuit (r : breq) : bool := (b_kind r =? 13) && (b_cs r =? ST_OK) && (0 <? b_x1 r).
+
+Definition mon_batch (c : cfg) (m : mon) (t : Z) (reqs : list breq) (sn : snap) : list Z :=
+  let h1 := expire_held (m_closed m) (m_held m) (m_now m) t in
+  let h2 := fold_left (fun h r =>
+                let a := addr_of c (b_p r) (b_a r) in
+                let rexp := ps_rexp (ps_at sn (b_p r)) in
+                upd h (b_p r) (if rexp <? 0 then None else Some (mkH rexp (a_ip a) (a_asn a) (a_relayed a))))
+              (filter b_granted reqs) h1 in
+  let mcs := m_circs m ++ map (fun r => mkMc (b_x1 r) (b_p r) (b_dst r) t (sn_t sn)) (filter b_circuit reqs) in
+  let h3 := fun p => if ps_connected (ps_at sn p) then h2 p else None in
+  let h4 := expire_held (m_closed m) h3 t (sn_t sn) in
+  let live := fun r : hres => sn_t sn <=? h_exp r in
+  let d_v := first_bad CL_VOUCHER
+      (map (fun r => (b_p r, negb (b_granted r) || ((b_x1 r =? 1) && (b_x2 r =? 1) && (b_x3 r =? b_p r)))) reqs) in
+  let d_c := first_bad CL_CONNECT
+      (map (fun r => (b_dst r, negb ((b_kind r =? 13) && (b_cs r =? ST_OK)) ||
+           (match h2 (b_dst r) with Some x => negb (h_rel x) | None => false end &&
+            negb (a_relayed (addr_of c (b_p r) (b_a r))) &&
+            ((b_p r =? b_dst r) ||
+             ((mcount_now mcs (sn_circs sn) (b_p r) <=? c_maxcirc c) &&
+              (mcount_now mcs (sn_circs sn) (b_dst r) <=? c_maxcirc c)))))) reqs) in
+  let d_k := first_bad CL_CAPS
+      (map (fun r => let a := addr_of c (b_p r) (b_a r) in
+           (b_p r, negb (b_granted r) ||
+              ((count_held c h4 live <=? c_maxrsvp c) &&
+               (count_held c h4 (fun x => live x && (h_ip x =? a_ip a)) <=? c_maxip c) &&
+               ((a_asn a =? 0) || (count_held c h4 (fun x => live x && (h_asn x =? a_asn a)) <=? c_maxasn c))))) reqs) in
+  d_v ++ d_c ++ d_life c sn h4 ++ d_k ++ d_rest c sn mcs (m_closed m) ++ d_lim c sn mcs.
 
 (* first position at which two token lists differ *)
 Fixpoint first_diff (i : Z) (a b : list Z) : list Z :=
@@ -430,25 +496,39 @@ Fixpoint conform_run (c : cfg) (s : st) (i : Z) (tr : list ev) : list Z :=
       else conform_run c s' (i + 1) r
   end.
 
-Definition decode_case (l : list Z) : option (cfg * list ev) :=
+Definition decode_case (l : list Z) : option (cfg * list ev * option (Z * list breq * snap)) :=
   match dec_cfg l with
   | Some (c, r) =>
       match dec_events (c_n c) r (S (length r)) with
-      | Some es => Some (c, es)
+      | Some (es, rest) =>
+          match dec_batch (c_n c) rest with
+          | Some b => Some (c, es, b)
+          | None => None end
       | None => None end
   | None => None
   end.
 
+(* the monitor state after a trace (for the trailing batch) *)
+Fixpoint mon_final (c : cfg) (m : mon) (tr : list ev) : mon :=
+  match tr with [] => m | e :: r => mon_final c (fst (mon_step c m e)) r end.
+
 Definition conform_case (l : list Z) : list Z :=
   match l with 2 :: r => SpecClient.client_conform r | _ =>
   match decode_case l with
-  | Some (c, es) => conform_run c init_st 0 es
+  | Some (c, es, _) => conform_run c init_st 0 es
   | None => [ERR_MALFORMED; 0]
   end end.
 
 Definition monitor_case (l : list Z) : list Z :=
   match l with 2 :: r => SpecClient.client_monitor r | _ =>
   match decode_case l with
-  | Some (c, es) => monitor c es
+  | Some (c, es, b) =>
+      monitor c es ++
+      match b with
+      | Some (t, rq, sn) =>
+          match mon_batch c (mon_final c mon_init es) t rq sn with
+          | cl :: k :: _ => [ERR_PROPERTY; zlength es; cl; k]
+          | _ => [] end
+      | None => [] end
   | None => [ERR_MALFORMED; 0]
   end end.
